@@ -65,6 +65,7 @@ def c04(A, ctx, tier):
     blockpen.r_gsupp(A, ctx, dict(floor=80))
     blockpen.r_fallback_step(A, ctx, dict(floor=9))
     ctx.assume("finiteness under overflow/cancellation is not decided")
+    blockpen.r_nonneg_prox(A, ctx, dict(floor=15))
     return dict(explanation="feasibility at every stopping point: only prox outputs, "
                 "guarded extrapolations, line-search combinations and the intercept are "
                 "ever written into w; constraint-bearing penalties expose the constraint "
